@@ -23,7 +23,7 @@ Theorem C15_inc_dec_local :
   lookup o obj (menv m) name = Ok (VInt z) -> stk m = top :: s ->
   exec o consts funcs fns obj (S k) code ip m =
   exec o consts funcs fns obj k code (ip + 3)
-       (mkM s (env_set (menv m) name (VInt (wrap64 (z + (if is_inc then 1 else -1))))) (trace m) (polls m)).
+       (mkM s (env_set (menv m) (trim_dollar name) (VInt (wrap64 (z + (if is_inc then 1 else -1))))) (trace m) (polls m)).
 Proof. exact EnvProofs.inc_dec_local. Qed.
 
 (* an assignment instruction: the popped value is bound to the popped name, nothing else changes *)
@@ -32,7 +32,7 @@ Theorem C15_set_local :
   byte_at code ip = Some OpSet -> ip < lenN code -> polls m = None ->
   stk m = VStr name :: v :: s -> (forall x off, v <> VIter x off) ->
   exec o consts funcs fns obj (S k) code ip m =
-  exec o consts funcs fns obj k code (ip + 1) (mkM s (env_set (menv m) name v) (trace m) (polls m)).
+  exec o consts funcs fns obj k code (ip + 1) (mkM s (env_set (menv m) (trim_dollar name) v) (trace m) (polls m)).
 Proof. exact EnvProofs.set_local. Qed.
 
 (* a literal denotes the same value every time: running never changes the program or its constant pool *)
